@@ -42,7 +42,7 @@ class SkipStatement(BaseException):
 
 class Env:
     __slots__ = ("locals", "parent", "func", "globals_", "owner", "cells", "self_arg", "exc_stack",
-                 "qualname", "loop_ordinal")
+                 "qualname", "loop_ordinal", "fnode")
 
     def __init__(self, locals_, parent, func, globals_, owner, cells, qualname):
         self.locals = locals_
@@ -55,6 +55,7 @@ class Env:
         self.exc_stack = []
         self.qualname = qualname
         self.loop_ordinal = 0
+        self.fnode = None
 
 
 _MISSING = object()
@@ -775,6 +776,7 @@ class Interp:
                 except ValueError:
                     pass
         env = Env(loc, None, fn, fn.__globals__, self.owner_of(fn), cells, key)
+        env.fnode = node
         if args:
             env.self_arg = args[0]
         elif node.args.args and node.args.args[0].arg in loc:
@@ -1039,7 +1041,7 @@ class Interp:
     s_AsyncFunctionDef = s_FunctionDef
 
     def s_While(self, s, env):
-        spec = self.loop_spec_for(env)
+        spec = self.loop_spec_for(env, s)
         if spec is not None:
             return self.exec_loop_with_spec(s, env, spec)
         n = 0
@@ -1058,16 +1060,31 @@ class Interp:
             except ContinueEx:
                 continue
 
-    def loop_spec_for(self, env):
-        k = (env.qualname, env.loop_ordinal)
-        env.loop_ordinal += 1
-        return self.loop_specs.get(k)
+    def loop_spec_for(self, env, stmt=None):
+        """sidecar loop specification keyed by (function key, ordinal of the loop in source order)"""
+        if not self.loop_specs or env.fnode is None or stmt is None:
+            return None
+        idx = getattr(env.fnode, "_loop_index", None)
+        if idx is None:
+            idx = {}
+            n = 0
+            stack = list(reversed(env.fnode.body))
+            while stack:
+                x = stack.pop()
+                if isinstance(x, (ast.FunctionDef, ast.AsyncFunctionDef, ast.Lambda, ast.ClassDef)):
+                    continue
+                if isinstance(x, (ast.For, ast.While, ast.AsyncFor)):
+                    idx[id(x)] = n
+                    n += 1
+                stack.extend(reversed(list(ast.iter_child_nodes(x))))
+            env.fnode._loop_index = idx
+        return self.loop_specs.get((env.qualname, idx.get(id(stmt))))
 
     def exec_loop_with_spec(self, s, env, spec):
         return spec.execute(self, s, env)
 
     def s_For(self, s, env):
-        spec = self.loop_spec_for(env)
+        spec = self.loop_spec_for(env, s)
         if spec is not None:
             return self.exec_loop_with_spec(s, env, spec)
         it = self.ev(s.iter, env)
